@@ -15,6 +15,10 @@ pub mod cer;
 pub mod c10;
 pub mod c11;
 pub mod c12;
+pub mod c13;
+pub mod c14;
+pub mod c16;
+pub mod c17;
 
 pub fn dispatch(args: &Args) -> Option<Report> {
     Some(match args.prop.as_str() {
@@ -30,6 +34,10 @@ pub fn dispatch(args: &Args) -> Option<Report> {
         "c10" => c10::run(args),
         "c11" => c11::run(args),
         "c12" => c12::run(args),
+        "c13" => c13::run(args),
+        "c14" => c14::run(args),
+        "c16" => c16::run(args),
+        "c17" => c17::run(args),
         _ => return None,
     })
 }
